@@ -76,10 +76,17 @@ impl Bin {
     }
 }
 
+/// The maximum depth of a binning index, i.e., all bin IDs fit in a `u32`.
+pub(crate) const MAX_DEPTH: u8 = 10;
+
 // `CSIv1.pdf` (2020-07-21)
-const fn bin_limit(depth: u8) -> i32 {
-    assert!(depth <= 10);
-    (1 << ((depth + 1) * 3)) / 7
+const fn bin_limit(depth: u8) -> u64 {
+    // This saturates for depths no binning index can have (> `MAX_DEPTH`). Queries reject them.
+    if depth > MAX_DEPTH {
+        return u64::MAX - 1;
+    }
+
+    (1 << ((depth as u32 + 1) * 3)) / 7
 }
 
 #[cfg(test)]
